@@ -60,19 +60,68 @@ def run(chk, repo):
     chk.ob("R14.1", T + ".set_state", "writes AL control 0x0120", ok, ss,
            "FPWR 0x120 'H' state.value")
     walk(chk, repo)
+    chk.doc("R14.5", "subclasses of Terminal do not re-implement the state "
+                     "requests")
+    override_rule(chk, repo, "R14.5", T, ["set_state", "get_state",
+                                          "to_operational"],
+                  "the state walk checked here issues its requests and "
+                  "polls through these methods; an override that skips, "
+                  "caches or reorders a request changes which control "
+                  "writes reach the terminal")
 
 
-def is_ctrl_write(n):
-    return n.expr is not None and bool(find(
-        "self.ec.roundtrip(ECCmd.FPWR, self.position, 288, 'H', $v)",
-        n.expr)) or (n.expr is not None and bool(find(
-            "self.set_state($v)", n.expr)))
+DIRECT = "self.ec.roundtrip(ECCmd.FPWR, self.position, 288, 'H', $v)"
+_wrappers = {}
 
 
-def ctrl_value(n):
-    r = find("self.ec.roundtrip(ECCmd.FPWR, self.position, 288, 'H', $v)",
-             n.expr) or find("self.set_state($v)", n.expr)
-    return r[0][1]["v"]
+def wrappers(repo):
+    """methods of Terminal that perform exactly one AL control write:
+    name -> (parameter names, written value expression).  A call
+    `self.<name>(args)` is then a control write of that value with the
+    arguments substituted (Min et al.: treat a wrapper as the operation)"""
+    if id(repo) in _wrappers:
+        return _wrappers[id(repo)]
+    out = {}
+    ci = repo.cls(T)
+    for name, f in ci.methods.items():
+        if name == "to_operational":
+            continue
+        hits = find(DIRECT, f)
+        if len(hits) == 1:
+            out[name] = (param_names(f)[1:], hits[0][1]["v"])
+    _wrappers[id(repo)] = out
+    return out
+
+
+def _wrapper_call(repo, expr):
+    for c in ast.walk(expr):
+        if isinstance(c, ast.Call) and isinstance(c.func, ast.Attribute) \
+                and isinstance(c.func.value, ast.Name) and c.func.value.id \
+                == "self" and c.func.attr in wrappers(repo):
+            return c
+    return None
+
+
+def is_ctrl_write(n, repo):
+    if n.expr is None or n.kind in ("with_exit",):
+        return False
+    return bool(find(DIRECT, n.expr)) or _wrapper_call(repo, n.expr) \
+        is not None
+
+
+def ctrl_value(n, repo):
+    r = find(DIRECT, n.expr)
+    if r:
+        return r[0][1]["v"]
+    c = _wrapper_call(repo, n.expr)
+    params, v = wrappers(repo)[c.func.attr]
+    sub = {p: a for p, a in zip(params, c.args)}
+    sub.update({k.arg: k.value for k in c.keywords if k.arg})
+
+    class S(ast.NodeTransformer):
+        def visit_Name(self, node):
+            return clone(sub[node.id]) if node.id in sub else node
+    return S().visit(clone(v))
 
 
 def walk(chk, repo):
@@ -85,7 +134,7 @@ def walk(chk, repo):
     need(len(fors) == 1, f"{sym}: expected one for loop (the walk)")
     it = fors[0]
     loopvar = unparse(it.stmt.target)
-    writes = [n for n in cfg.nodes if is_ctrl_write(n)]
+    writes = [n for n in cfg.nodes if is_ctrl_write(n, repo)]
     chk.floor("R14.3", "AL control writes in to_operational", len(writes), 2)
     body_ids = {id(x) for s in it.stmt.body for x in ast.walk(s)}
     inloop = [n for n in writes if id(n.stmt) in body_ids]
@@ -100,7 +149,7 @@ def walk(chk, repo):
     need(len(pre) == 1, f"{sym}: expected one control write before the walk "
                         f"(the acknowledge)")
     ack = pre[0]
-    v = ctrl_value(ack)
+    v = ctrl_value(ack, repo)
     ev = Evaluator(repo, f._module)
     try:
         val = ev.eval(v)
@@ -139,9 +188,8 @@ def walk(chk, repo):
     need(len(inloop) == 1, f"{sym}: expected one control write in the walk")
     w = inloop[0]
     chk.ob("R14.3", sym, "the state requested is the walk's current state",
-           match(f"{loopvar}.value", ctrl_value(w)) is not None or
-           match(loopvar, ctrl_value(w)) is not None, w.expr,
-           f"requests {unparse(ctrl_value(w))}")
+           match(f"{loopvar}.value", ctrl_value(w, repo)) is not None,
+           w.expr, f"requests {unparse(ctrl_value(w, repo))}")
     guards = [n for n in cfg.nodes if n.kind == "test" and id(n.stmt) in
               body_ids and match("state.value >= target.value", n.expr)
               is not None]
